@@ -277,15 +277,19 @@ func init() {
 		passes := []passT{{1, true}}
 		if r.Tier == "thorough" {
 			bound = 2
-			passes = []passT{{2, false}, {1, true}}
+			passes = []passT{{1, true}, {2, false}}
 		}
 		r.Rule = fmt.Sprintf("%d drain scenarios (priority/owner tiers, do-not-disrupt true / expired duration / active duration, static, tolerating, grace nil/5..300s, already terminating, PDB blocked / two PDBs, TGP none/60s/300s/600s, pods using their whole grace period) are driven for %d steps through the real node-termination controller, lifecycle controller and eviction queue (graceful pod deletion and PDB admission emulated by the API layer); every history with <=%d deviations from the fair default cycle is explored (an environment event happening in the MIDDLE of a reconcile, before any one of its calls — thorough: as a separate one-deviation pass —, or any other enabled reconcile or event inserted: clock +1s/+61s/past-TGP and jumps to every threshold instant — deadline, deadline minus each pod grace period, +-1s, the last half second, mid-window —, PDBs allow, pod finished, node NotReady, restart...). "+
 			"Every eviction create and pod Delete is judged at the instant it is requested. Plus a seam exploration of all operation sequences of length <=4/5 on the real eviction Queue (Add under early/late/no deadline, Reconcile, clock between the thresholds). states = distinct (scenario, history) reached; non-trivial likewise", len(drainScenarios), steps, bound)
 		r.Assumptions = []string{"controllers do not preempt each other inside a reconcile; the ENVIRONMENT may act before any API / provider call of a reconcile", "ordering clause judged as the statement words it: non-critical non-daemon pods before daemon and critical pods"}
 		c10QueueSeam(r)
-		enum.RunEveryShard(r, int64(len(drainScenarios)), func(i int64, l *ev.Local) {
-			sc := drainScenarios[i]
-			for _, pass := range passes {
+		// passes outermost, cheapest first: every scenario is covered at the lower bound before the deeper pass starts, so a
+		// deadline cuts the deepest pass only (the evidence says which pass completed)
+		for pi, pass := range passes {
+			pass := pass
+			completed := true
+			enum.RunEveryShard(r, int64(len(drainScenarios)), func(i int64, l *ev.Local) {
+				sc := drainScenarios[i]
 				bound, interleave := pass.bound, pass.interleave
 				ex := &explore.Explorer{Bound: bound, MaxExecs: 400000, Stop: r.Expired, Shard: r.Shard, NShards: r.Shards}
 				ex.Exec = func(run *explore.Run) {
@@ -320,8 +324,14 @@ func init() {
 					l.Outcome("exploration-capped")
 					r.Exhaustive = false
 				}
+			})
+			if r.Expired() {
+				completed = false
 			}
-		})
+			if completed {
+				r.Extra["deepest_pass_completed"] = fmt.Sprintf("pass %d of %d: <=%d deviations, environment events inside a reconcile: %v", pi+1, len(passes), pass.bound, pass.interleave)
+			}
+		}
 	})
 }
 
